@@ -280,6 +280,12 @@ func (ps *PartSet) AddPart(part *Part) (bool, error) {
 		return false, nil
 	}
 
+	// The proof must be for this position of a tree with this many leaves:
+	// Proof.Verify alone does not tie (Index, Total) to the part's position.
+	if part.Proof.Index != int64(part.Index) || part.Proof.Total != int64(ps.total) {
+		return false, ErrPartSetInvalidProof
+	}
+
 	// Check hash proof
 	if part.Proof.Verify(ps.Hash(), part.Bytes) != nil {
 		return false, ErrPartSetInvalidProof
